@@ -9,6 +9,8 @@ mod faults;
 mod gen2;
 mod gen3;
 mod hist;
+mod koracle;
+mod mesh;
 mod oracle;
 mod harness;
 mod ops;
@@ -45,7 +47,7 @@ fn main() {
                 "C07" => props::c07::check(tier),
                 "C06" => props::c06::check(tier),
                 "C08" => props::c08::check(tier),
-                "C01" | "C02" | "C03" | "C04" | "C05" | "C18" => props::hprops::check(&args[2], tier),
+                "C01" | "C02" | "C03" | "C04" | "C05" | "C18" | "C13" | "C14" | "C15" => props::hprops::check(&args[2], tier),
                 _ => {
                     eprintln!("HARNESS-ERROR unknown property {}", args[2]);
                     2
@@ -68,7 +70,7 @@ fn main() {
                 "C07" => props::c07::replay(&v),
                 "C06" => props::c06::replay(&v),
                 "C08" => props::c08::replay(&v),
-                "C01" | "C02" | "C03" | "C04" | "C05" | "C18" => props::hprops::replay(&v),
+                "C01" | "C02" | "C03" | "C04" | "C05" | "C18" | "C13" | "C14" | "C15" => props::hprops::replay(&v),
                 _ => {
                     eprintln!("HARNESS-ERROR unknown property {}", v.property);
                     2
